@@ -543,20 +543,20 @@ func c04ScalarLastWins(c *an.Ctx, fns []*ssa.Function, mo map[*ssa.Function]bool
 
 // documented hidden inputs: function -> callee prefix -> reason.
 var c04HiddenAllow = map[string]string{
-	"internal/corazawaf.(*WAF).newTransaction|time.Now":               "Timestamp of the transaction (TIME* variables, audit log)",
-	"internal/corazawaf.(*Transaction).setTimeVariables|time.Unix":    "TIME* variables, documented as wall-clock dependent",
-	"internal/corazawaf.(*RuleGroup).Eval|time.Now":                   "per-phase stopwatch (DURATION / audit stopwatch), order independent",
-	"internal/corazawaf.(*WAF).NewTransaction|strings.RandomString":   "UNIQUE_ID / transaction id, documented as random",
-	"internal/strings.RandomString|(rand.Source).Int63":               "random source of the transaction id",
-	"internal/actions.(*setenvFn).Evaluate|os.Setenv":                 "setenv action, documented side effect",
-	"internal/auditlog.(concurrentWriter).Write|time.Unix":            "audit file naming from the transaction timestamp",
-	"internal/operators.(*rbl).Evaluate|time.After":                   "@rbl network lookup timeout (network operator, outside the quantifier)",
-	"internal/operators.(*rbl).Evaluate|context.WithCancel":           "@rbl network lookup",
-	"internal/corazawaf.(*Transaction).AuditLog|time.Unix":            "audit record timestamp",
-	"internal/corazawaf.(*Transaction).AuditLog|time.Now":             "audit record timestamp",
-	"internal/corazawaf.(*Transaction).ProcessLogging|time.Now":       "audit record timestamp",
-	"internal/corazawaf.(*Transaction).setTimeVariables|time.Now":     "TIME* variables",
-	"internal/corazawaf.(*Transaction).setTimeVariables|(time.Time).": "TIME* variables",
+	"internal/corazawaf.(*WAF).newTransaction|time.Now":                        "Timestamp of the transaction (TIME* variables, audit log)",
+	"internal/corazawaf.(*Transaction).setTimeVariables|time.Unix":             "TIME* variables, documented as wall-clock dependent",
+	"internal/corazawaf.(*RuleGroup).Eval|time.Now":                            "per-phase stopwatch (DURATION / audit stopwatch), order independent",
+	"internal/corazawaf.(*WAF).NewTransaction|strings.RandomString":            "UNIQUE_ID / transaction id, documented as random",
+	"internal/strings.RandomString|(rand.Source).Int63":                        "random source of the transaction id",
+	"internal/actions.(*setenvFn).Evaluate|os.Setenv":                          "setenv action, documented side effect",
+	"internal/auditlog.(concurrentWriter).Write|time.Unix":                     "audit file naming from the transaction timestamp",
+	"internal/operators.(*rbl).Evaluate|time.After":                            "@rbl network lookup timeout (network operator, outside the quantifier)",
+	"internal/operators.(*rbl).Evaluate|context.WithCancel":                    "@rbl network lookup",
+	"internal/corazawaf.(*Transaction).AuditLog|time.Unix":                     "audit record timestamp",
+	"internal/corazawaf.(*Transaction).AuditLog|time.Now":                      "audit record timestamp",
+	"internal/corazawaf.(*Transaction).ProcessLogging|time.Now":                "audit record timestamp",
+	"internal/corazawaf.(*Transaction).setTimeVariables|time.Now":              "TIME* variables",
+	"internal/corazawaf.(*Transaction).setTimeVariables|(time.Time).":          "TIME* variables",
 	"internal/corazawaf.(*WAF).NewTransactionWithOptions|strings.RandomString": "UNIQUE_ID / transaction id when the caller supplies none, documented as random",
 	"internal/auditlog.(nativeFormatter).Format|strings.RandomString":          "random part boundary of the native audit format (not part of the outcome compared by the property)",
 	"internal/auditlog.(ocsfFormatter).Format|time.Now":                        "OCSF record creation time (audit formatting only)",
